@@ -138,9 +138,16 @@ impl PidFileLocking {
             create_dir_all(dir)?;
         }
 
+        // Write the PID to a temporary file and move it into place. Creating the lock file
+        // first and writing the PID afterwards leaves a window in which other processes see an
+        // empty (unparsable) lock file, which `cleanup_stale_files` removes as stale, so the
+        // lock of a running process would get lost.
+        let tmp_path = self
+            .0
+            .with_extension(format!("{}.tmp", std::process::id()));
         #[cfg(fuellabs_sway_verif)]
         verif::step("create");
-        let mut fs = File::create(&self.0)?;
+        let mut fs = File::create(&tmp_path)?;
         #[cfg(fuellabs_sway_verif)]
         verif::step("write_pid");
         fs.write_all(std::process::id().to_string().as_bytes())?;
@@ -148,6 +155,8 @@ impl PidFileLocking {
         verif::step("sync");
         fs.sync_all()?;
         fs.flush()?;
+        drop(fs);
+        std::fs::rename(&tmp_path, &self.0)?;
         Ok(())
     }
 
